@@ -2,8 +2,8 @@
    Models: Buffers.v (StackStorageOrig.h/.cpp, Stack.h preallocate functions) and the GENERATED site table
    AdeptGen.Gen_Sites (every check_space call of the current sources with its reservation expression). *)
 From Coq Require Import ZArith List Lia String.
-From Adept Require Import Buffers BuffersProofs.
-From AdeptGen Require Import Gen_Sites.
+From Adept Require Import Buffers BuffersProofs Scalar ExprDefs Expr ReduceDefs Reduce ReduceProofs.
+From AdeptGen Require Import Gen_Sites Gen_Ops Gen_Reduce.
 Import ListNotations.
 Local Open Scope Z_scope.
 
@@ -54,3 +54,17 @@ Example C09_example :
   ops_rec (fst (brun (binit 1) tr)) = [10;11;12;13;14] /\ cap_ops (fst (brun (binit 1) tr)) = 13 /\
   n_st (fst (brun (binit 1) tr)) = 5.
 Proof. vm_compute. repeat split. Qed.
+
+(* the demand of two sites is DERIVED, not read by hand: (1) an expression statement never pushes more than E::n_active
+   operations (the reservation of Active / ActiveReference / array element assignment), for every expression tree and every
+   position; (2) the element loop of reduce_active pushes at most (n_active + extra_element_cost) * n operations, with the
+   policies translated from reduce.h (what site reduce.h:reduce_active reserves) *)
+Theorem C09_expression_demand_is_n_active : forall (T : Type) (F : FOps T) arrs (e : expr (T:=T)) A S scr w,
+  (Z.of_nat (List.length (calc_gradient F arrs e A S scr w)) <= n_active e)%Z.
+Proof. intros T F. exact (ExprProofs.pushes_le_n_active F). Qed.
+Print Assumptions C09_expression_demand_is_n_active.
+Theorem C09_reduction_demand_within_reservation : forall (T : Type) (F : FOps T) (minf pinf : T) t k (es : list (expr (T:=T))) na,
+  Forall (fun e : expr (T:=T) => (n_active e <= na)%Z) es ->
+  (Z.of_nat (ops_in_loop F minf pinf t (reduce_policy k) es) <= reduce_reservation na (rp_extra (reduce_policy k)) (Z.of_nat (List.length es)))%Z.
+Proof. intros T F minf pinf t k es na. exact (loop_within_reservation F minf pinf t (reduce_policy k) es na (generated_extra_cost k)). Qed.
+Print Assumptions C09_reduction_demand_within_reservation.
